@@ -32,6 +32,7 @@ import geodepy.statistics as gs
 import geodepy.survey as gsv
 import geodepy.transform as gt
 import geodepy.coord as gco
+import geodepy.ntv2reader as gnt
 
 PROPERTY = 'C09'
 ASSUMPTIONS = [
@@ -59,6 +60,21 @@ E_ALIAS = gc.Ellipsoid(6378137, 275.0)      # same semi-major axis as GRS80, dif
 
 def A(x):
     return np.array(x, dtype=float)
+
+
+def _iadd(t, d):
+    t += d
+    return t
+
+
+def _isub(a, b):
+    a -= b
+    return a
+
+
+def _imul(a, k):
+    a *= k
+    return a
 
 
 # name -> (function returning (callable, args list))   args are rebuilt for every execution
@@ -151,6 +167,54 @@ ALPHABET = {
                                                              gt.conform7(X, Y, Z, t1, v), gt.conform14(X, Y, Z, d2, t1, v)))(t + d1)),
                               [gc.itrf2000_to_gda94, D30, D85, A(V33)]),
     'precise_inst_ht_sorted': lambda: (gsv.precise_inst_ht, [[92.0, 91.0, 90.0, 89.0], 0.5, 0.1]),
+    # --- hash twins: CPython hashes -1 and -2 to the same value, so a memo keyed on hash(arguments) answers one with the other
+    'rotation_matrix_m1': lambda: (gs.rotation_matrix, [-1.0, 133.88]),
+    'rotation_matrix_m2': lambda: (gs.rotation_matrix, [-2.0, 133.88]),
+    'rotation_matrix_lm1': lambda: (gs.rotation_matrix, [-23.67, -1]),
+    'rotation_matrix_lm2': lambda: (gs.rotation_matrix, [-23.67, -2]),
+    'geo2grid_m1': lambda: (gv.geo2grid, [-1, 151.2]),
+    'geo2grid_m2': lambda: (gv.geo2grid, [-2, 151.2]),
+    'llh2xyz_m1': lambda: (gv.llh2xyz, [-37.8, 144.97, -1.0]),
+    'llh2xyz_m2': lambda: (gv.llh2xyz, [-37.8, 144.97, -2.0]),
+    'vincinv_m1': lambda: (gg.vincinv, [-1.0, 144.42486789, -37.65282114, 143.92649553]),
+    'vincinv_m2': lambda: (gg.vincinv, [-2.0, 144.42486789, -37.65282114, 143.92649553]),
+    'vincdir_m1': lambda: (gg.vincdir, [-1, 144.42486789, 306.86815920, 54972.271]),
+    'vincdir_m2': lambda: (gg.vincdir, [-2, 144.42486789, 306.86815920, 54972.271]),
+    'group_refractivity_m1': lambda: (gsv.group_refractivity, [0.85, -1.0, 1013.25, 10.0]),
+    'group_refractivity_m2': lambda: (gsv.group_refractivity, [0.85, -2.0, 1013.25, 10.0]),
+    'phase_refractivity_m1': lambda: (gsv.phase_refractivity, [0.85, -1, 1013.25, 10.0]),
+    'phase_refractivity_m2': lambda: (gsv.phase_refractivity, [0.85, -2, 1013.25, 10.0]),
+    'dec2hp_m1': lambda: (ga.dec2hp, [-1.0]),
+    'dec2hp_m2': lambda: (ga.dec2hp, [-2.0]),
+    'xyz2enu_m1': lambda: (gg.xyz2enu, [-1.0, 133.88, 1.0, -2.0, 3.0]),
+    'xyz2enu_m2': lambda: (gg.xyz2enu, [-2.0, 133.88, 1.0, -2.0, 3.0]),
+    'conform7_m1': lambda: (gt.conform7, [-1.0, Y, Z, gc.gda94_to_gda2020]),
+    'conform7_m2': lambda: (gt.conform7, [-2.0, Y, Z, gc.gda94_to_gda2020]),
+    # --- augmented assignment on a shipped constant: `t += date` must rebind the caller's name, not rewrite the constant
+    'iadd_date': lambda: (_iadd, [gc.itrf2014_to_itrf2008, D30]),
+    'iadd_date_sd': lambda: (_iadd, [gc.itrf2008_to_gda94, D85]),
+    'isub_angle': lambda: (_isub, [ga.DMSAngle(12, 30, 15.5), ga.DECAngle(2.25)]),
+    'imul_angle': lambda: (_imul, [ga.HPAngle(12.3015), 2]),
+    # --- caller-owned float64 arrays as parameter / observation containers
+    'first_vel_corrn_arr': lambda: (gsv.first_vel_corrn, [1117.8517, A([281.781, 79.393]), 6.8, 938.5, 58.0]),
+    'first_vel_corrn_arr_co2': lambda: (gsv.first_vel_corrn, [1117.8517, A([281.781, 79.393]), 6.8, 938.5, 58.0, None, 420.0, 0.850]),
+    'precise_inst_ht_arr': lambda: (gsv.precise_inst_ht, [A([89.0, 92.0, 90.0, 91.0]), 0.5, 0.1]),
+    'conform7_vcv_p2': lambda: (gt.conform7, [-2389025.0, 5043317.0, -3078531.0, gc.gda94_to_gda2020, A(V33) * 7.0 + np.eye(3) * 1e-3]),
+    # --- calls that are REJECTED (the reference result is the exception): what a failed call leaves behind is history too
+    'raises_mga2020_zone61': lambda: (gt.transform_mga2020_to_mga94, [61, 500000.0, 6000000.0]),
+    'raises_mga2020_vcv22': lambda: (gt.transform_mga2020_to_mga94, [55, 500000.0, 6000000.0, 10.0, np.eye(2)]),
+    'raises_mga94_vcv22': lambda: (gt.transform_mga94_to_mga2020, [55, 500000.0, 6000000.0, 10.0, np.eye(2)]),
+    'raises_gda2020_atrf_baddate': lambda: (gt.transform_gda2020_to_atrf2014, [X, Y, Z, 'not a date']),
+    'raises_conform14_baddate': lambda: (gt.conform14, [X, Y, Z, None, gc.itrf2014_to_gda2020, A(V33)]),
+    'raises_conform7_rot': lambda: (gt.conform7, [X, Y, Z, gc.Transformation('A', 'B', 0, 1, 2, 3, 4, 75.0, 0, 0), A(V33)]),
+    'raises_geo2grid_band': lambda: (gv.geo2grid, [85.0, 10.0]),
+    'raises_grid2geo_hemi': lambda: (gv.grid2geo, [56, 300000, 6200000, 'east']),
+    'raises_hp2dec': lambda: (ga.hp2dec, [12.6]),
+    'raises_vincinv_utm_zone': lambda: (gg.vincinv_utm, [55, 500000.0, 6000000.0, 99, 500000.0, 6000000.0]),
+    'raises_vcv_shape': lambda: (gs.vcv_cart2local, [np.eye(2), -23.0, 133.0]),
+    'raises_k_val95': lambda: (gs.k_val95, [2.5]),
+    'mga2020_to_mga94_p3': lambda: (gt.transform_mga2020_to_mga94, [55, 300000.0, 6200000.0, 10.0]),
+    'mga94_to_mga2020_p3': lambda: (gt.transform_mga94_to_mga2020, [55, 300000.0, 6200000.0, 10.0]),
     # --- array-valued observations (the formulas are elementwise; the arrays belong to the caller)
     'phase_refractivity_arr': lambda: (gsv.phase_refractivity, [0.85, A([20.0, 25.0]), A([1013.25, 990.0]), A([10.0, 12.0])]),
     'group_refractivity_arr': lambda: (gsv.group_refractivity, [0.85, A([20.0, 25.0]), A([1013.25, 990.0]), A([10.0, 12.0])]),
@@ -196,6 +260,23 @@ SHARED_CALLS = {
     'parr.phase': ('parr', lambda p: gsv.phase_refractivity(0.85, A([20.0, 25.0]), p, A([10.0, 12.0]))),
     'parr.group': ('parr', lambda p: gsv.group_refractivity(0.85, A([20.0, 25.0]), p, A([10.0, 12.0]))),
 }
+_NTV2 = {}
+
+
+def ntv2_path():
+    """a two-level NTv2 file (parent + nested child, biquadratic fields) written once by the independent generator"""
+    if 'p' not in _NTV2:
+        from gpmc.checks import c17
+        _NTV2['p'] = c17.materialise(c17.layout_by_id('nested-biquadratic'), 'c09')[0]
+    return _NTV2['p']
+
+
+SHARED['ntv2'] = lambda: gnt.read_ntv2_file(ntv2_path())
+SHARED_CALLS.update({
+    'ntv2.child': ('ntv2', lambda g: gnt.interpolate_ntv2(g, -29.5, 149.4, 'bicubic')),
+    'ntv2.parent': ('ntv2', lambda g: gnt.interpolate_ntv2(g, -29.9, 149.9, 'bilinear')),
+    'ntv2.2d': ('ntv2', lambda g: gt.ntv2_2d(g, -29.45, 149.45, True, 'bilinear')),
+})
 SHARED_NAMES = sorted(SHARED_CALLS)
 _LIVE = {}          # shared objects of the current execution (built before the calls / threads start)
 
@@ -278,6 +359,16 @@ def in_child(fn):
     return out[1]
 
 
+_FK = {}
+
+
+def fn_key(name):
+    if name not in _FK:
+        f = ALPHABET[name]()[0]
+        _FK[name] = (getattr(f, '__module__', '?'), getattr(f, '__qualname__', repr(f)))
+    return _FK[name]
+
+
 _REF = {}
 
 
@@ -289,6 +380,7 @@ def references():
 
 
 def prepare(tier, seed):
+    ntv2_path()
     references()
     dirty_calls()       # computed once here, before the worker pool forks
     if tier == 'thorough':
@@ -361,7 +453,7 @@ def check_obs(rec, hist, obs, one):
             pass
         rec.fail('result differs from the result of the same call in a pristine interpreter (depends on call history)',
                  site='purity:repeat:' + n, observed=str(o['res'])[:300], expected=str(ref[n])[:300], case=one, coords=co)
-    if ref[n][0] != 'ok' and len(hist) == 1:
+    if ref[n][0] != 'ok' and len(hist) == 1 and not n.startswith('raises_'):
         rec.fail('alphabet call raises in a pristine interpreter', site='purity:alphabet:' + n, observed=ref[n], case=one, coords=co)
     return bad
 
@@ -401,7 +493,10 @@ def ev_seq(case, rec):
         if depth >= 2:
             hists += [[a, b] for b in NAMES]
             # the call again after one other call: [a, b, a] (a counter / second-use cache shows on the third step only)
-            hists += [[a, b, a] for b in NAMES]
+            # (quick: b ranges over the calls of the same function / the same module as a and over every call that is known
+            #  to leave module-level data behind; thorough: every b)
+            fa = fn_key(a)
+            hists += [[a, b, a] for b in NAMES if depth >= 3 or fn_key(b)[0] == fa[0] or b in dirty_calls()]
         for h in hists:
             obs = in_child(lambda h=h: run_history(h))
             out.append((h, obs))
@@ -496,7 +591,7 @@ def gen_sched(tier, seed):
                  ('conform14_user_alias', 'conform14_apm_vcv')):
         yield {'threads': [[a, a], [b]], 'bound': 1}
     # two threads working on the SAME caller-owned object
-    quick_objs = ('geo2d', 'tderived', 'vcv', 'obs', 'tm', 'parr')
+    quick_objs = ('geo2d', 'tderived', 'vcv', 'obs', 'tm', 'parr', 'ntv2')
     for oname in sorted(SHARED):
         if tier != 'thorough' and oname not in quick_objs:
             continue
@@ -572,7 +667,8 @@ def ev_sched(case, rec):
     files = traced_files(dirty_modules())
     if case.get('shared'):
         # the modules that own / read the shared object get scheduling points too
-        for f in ('geodepy/survey.py', 'geodepy/convert.py') + (('geodepy/angles.py',) if 'dms' in threads[0][0] else ()):
+        for f in ('geodepy/survey.py', 'geodepy/convert.py') + (('geodepy/angles.py',) if 'dms' in threads[0][0] else ()) \
+                + (('geodepy/ntv2reader.py',) if 'ntv2' in threads[0][0] else ()):
             files.add(os.path.realpath(os.path.join(REPO, f)))
     opcode = bool(case.get('opcode'))
     if 'schedule' in case:                 # replay of one recorded schedule
